@@ -1,6 +1,7 @@
 CONSTANTS
   Alias = FALSE
   MaxObj = 3
+  PreKind = 1
   MaxLen = 5
   ExportLen = 5
 INIT SInit
